@@ -262,9 +262,10 @@ Fixpoint flow_ok (ms : list mev) (ci rl : bool) : bool :=
   end.
 
 (** what the destination serves: after its Reload the chain the directory holds, before it its own chain *)
-Definition observe_dst (K : nat) (s : rb) : side :=
+(** (a clone that has not reloaded yet still works on its head alone, whatever UpdateCloneInfo wrote) *)
+Definition observe_dst (K : nat) (clone : bool) (s : rb) : side :=
   if reloaded s then observe_side K (dst s)
-  else let v := own_view (lowc s) (wired s) (dst s) in
+  else let v := own_view (lowc s) (wired s && negb clone) (dst s) in
        let lv := fst (read_all K v) in mkside lv lv [] [] [] [] (nblk v).
 
 Definition lite_diff (a b : side) : nat :=
@@ -285,7 +286,7 @@ Definition check_rcase_v (fx : bool) (c : rcase) : rverdict :=
   let '(s, fl0) := exec fx K (init_case fx c) (rc_ev c) in
   let mdone := flow_ok (rc_ev c) false false in
   let ms := observe_side K (src s) in
-  let md := observe_dst K s in
+  let md := observe_dst K (rc_clone c) s in
   let ds := side_diff ms os in
   let dd_ := if mdone then side_diff md od else lite_diff md od in
   let diff := if negb (Bool.eqb mdone (rc_completed c)) then 22
@@ -325,4 +326,4 @@ Definition rcoverage := rcoverage_v code_variant.
 Definition model_oracle (fx : bool) (c : rcase) : bool :=
   let K := rc_K c in
   let '(s, _) := exec fx K (init_case fx c) (rc_ev c) in
-  case_oracle K c (flow_ok (rc_ev c) false false) (drev s) (observe_side K (src s)) (observe_dst K s).
+  case_oracle K c (flow_ok (rc_ev c) false false) (drev s) (observe_side K (src s)) (observe_dst K (rc_clone c) s).
